@@ -67,8 +67,10 @@ def crossratio(
             # in the dual plane four concurrent lines are four collinear points with the same cross ratio
             a, b, c, d = (PointCollection.from_array(x.array) for x in (a, b, c, d))
         else:
-            from_point = a.meet(b)
-            a, b, c, d = a.base_point, b.base_point, c.base_point, d.base_point
+            # section of the pencil with a plane that does not contain its vertex: four collinear points with the same cross ratio
+            vertex = a.meet(b)
+            e = PlaneCollection.from_array(np.conjugate(vertex.array))
+            a, b, c, d = e.meet(a), e.meet(b), e.meet(c), e.meet(d)
 
     elif (
         isinstance(a, PlaneTensor)
